@@ -238,6 +238,14 @@ def write_xlsx(desc, dirpath, sheet_order=None):
                     ref = '%s%d:%s%d' % (col_name(c1), r1, col_name(c2), r2)
                     ws[addr] = ArrayFormula(
                         ref, '=' + formula_text(desc, cell['f'], (b, s)))
+                    if desc.get('spill_cache'):
+                        # a file saved by Excel keeps the last values of the
+                        # other cells of the array as plain cell contents
+                        for c in range(c1, c2 + 1):
+                            for r in range(r1, r2 + 1):
+                                a2 = '%s%d' % (col_name(c), r)
+                                if a2 != addr and a2 not in sh['cells']:
+                                    ws[a2] = 987.0
                 elif 'f' in cell:
                     ws[addr] = '=' + formula_text(desc, cell['f'], (b, s))
                 else:
